@@ -293,7 +293,7 @@ gRPC sender iff it is retried by an HTTP sender -/
 def C15_transports_agree_full : Prop :=
   ∀ o : Outcome, o.wf → (expGrpc (recvGrpc o)).isRetry = (expHttp (recvHttp o)).isRetry
 
-/-- … is false, and necessarily so: the OTLP specification's two tables disagree on this one outcome. OTLP/gRPC: RESOURCE_EXHAUSTED is
+/-- (OBSERVATION, spec-induced — not a finding.) … is false, and necessarily so: the OTLP specification's two tables disagree on this one outcome. OTLP/gRPC: RESOURCE_EXHAUSTED is
 retryable "only if the server signals that recovery is possible" (RetryInfo); OTLP/HTTP: 429 is in the list of retryable response
 codes without condition. The receiver maps RESOURCE_EXHAUSTED to 429 (its documented mapping), each sender follows its own table
 (`C15_exporter_matches_spec_grpc/http`), so a consumer's RESOURCE_EXHAUSTED without RetryInfo is permanent over gRPC and retried over
@@ -365,7 +365,7 @@ theorem C15_expHttpX_matches_spec_partial (r : HttpResp) (hd : r.inDomain = true
 /-- the unrestricted statement … -/
 def C15_expHttpX_matches_spec_full : Prop := ∀ r : HttpResp, expHttpX r = specHttpXPure r
 
-/-- … is false for the code as it is, witness 1: `Retry-After: 9223372037` on a 503 — `time.Duration(seconds)*time.Second`
+/-- (OBSERVATION, outside the property's quantifier — the real receiver never sends this.) … is false for the code as it is, witness 1: `Retry-After: 9223372037` on a 503 — `time.Duration(seconds)*time.Second`
 wraps to a negative delay instead of ≈ 292 years (observed on the real exporter: fake-server corpus case) -/
 theorem C15_expHttpX_matches_spec_full_fails : ¬ C15_expHttpX_matches_spec_full := by
   intro h
@@ -373,7 +373,7 @@ theorem C15_expHttpX_matches_spec_full_fails : ¬ C15_expHttpX_matches_spec_full
   revert this
   decide
 
-/-- witness 2: a 200 whose body is declared protobuf/JSON but does not decode is returned as a plain error, i.e. the batch is
+/-- (OBSERVATION, outside the property's quantifier.) witness 2: a 200 whose body is declared protobuf/JSON but does not decode is returned as a plain error, i.e. the batch is
 RETRIED although the server acknowledged it (the spec: 200 = success) -/
 theorem C15_undecodable_2xx_is_retried :
     expHttpX ⟨200, .absent, .undecodable⟩ = .retryable ∧ specHttpXPure ⟨200, .absent, .undecodable⟩ = .success := by decide
@@ -547,13 +547,9 @@ theorem C15_consumer_once (sink : Outcome) (auth : Option Bool) (ct : CType) (n 
 
 /-! ## payload -/
 
-/-- (lemma, NOT counted as a property theorem: it only composes two hypotheses.) If marshalling and compression are lawful pairs, the
-receiver decodes what the exporter marshalled. The marshalling law for the real schema is C08's theorem `C08_wrappers_otlp_api`
-(every root incl. the four `Export*ServiceRequest`s, every payload built through the public pdata API, protobuf and JSON); the
-composition with it is type-checked in `Lemmas/C15Payload.lean` (`C15_payload_pb_partial`, `C15_payload_json_partial`), which is
-built on demand and not part of this check because it imports another property's proof files. The compression law is C16's
-hypothesis (sampled). What THIS check contributes to the payload clause is the byte comparison at the sink over type-directed
-payloads through the real exporters and receiver. -/
+/-- (lemma, not counted: the generic shape of the payload argument.) The counted payload theorems are `C15_payload_pb_partial` and
+`C15_payload_json_partial` in `Lemmas/C15Payload.lean` (a module of this check): they instantiate the marshalling half with C08's proved
+`C08_wrappers_otlp_api` for the regenerated schema and keep the transport's laws as named hypotheses. -/
 theorem payload_composition {α β : Type} (encode : α → β) (decode : β → Option α) (compress : β → β) (decompress : β → Option β)
     (enc_law : ∀ v, decode (encode v) = some v) (comp_law : ∀ b, decompress (compress b) = some b) (v : α) :
     (decompress (compress (encode v))).bind decode = some v := by
